@@ -476,7 +476,7 @@ func (s *schemaBuilder) buildFromType(tpe types.Type, tgt swaggerTypable) error 
 			return nil
 		}
 	default:
-		panic(fmt.Sprintf("WARNING: can't determine refined type %s (%T)", titpe.String(), titpe))
+		log.Printf("WARNING: can't determine refined type %s (%T)", titpe.String(), titpe)
 	}
 
 	return nil
